@@ -361,6 +361,8 @@ def xlockLine (s : HistState) (t : List String) : Option String :=
     | none => pure "err NoSuchPosition"
     | some pos =>
       if auth = 2 then pure "err AccountNotSigner"
+      else if auth = 3 || auth = 4 then pure "err ConstraintSeeds"   -- lock config / mint not the position's (C15)
+      else if auth = 5 then pure "err ConstraintHasOne"             -- the position belongs to another pool (C15)
       else if auth = 1 then pure "err MissingOrInvalidDelegate"
       else if pos.liq = 0 then pure "err PositionNotLockable"
       else if follow == "none" then pure "ok none ok"
